@@ -205,9 +205,10 @@ def gen_history(seed, tier, prop, kinds_allowed):
     elif kind == 'dpa':
         scn['pool'] = [0, 1]
     elif kind in kinds.CLASS_BASED:
-        auto = regime == 'exact' and r.random() < 0.25
+        auto = regime == 'exact' and r.random() < (0.4 if prop == 'C16' else 0.25)
         if auto:
-            top = r.choice([8, 8, 5, 63, 40] + ([255, 100] if thorough else []))
+            # C16: mostly class sets of the 64 bucket, so that a 9-class set left behind by a refused first call would be too small
+            top = r.choice(([8, 63, 40, 63, 20] if prop == 'C16' else [8, 8, 5, 63, 40]) + ([255, 100] if thorough else []))
             scn['pool'] = list(range(top + 1))
         else:
             cl = r.choice(CLASS_POOL)
